@@ -59,6 +59,11 @@ Inductive label :=
 | PollRx                  (* poll the receiver task: one poll_recv *)
 | DropSender (t : nat)    (* drop task t with its Sender handle and outstanding futures *)
 | CloseSender (t : nat)   (* Sender::close_this_sender (also Sink::poll_close) of a finished task *)
+| TrySend (t : nat) (x : item)   (* task t calls Sender::try_send(x) *)
+| CloneSender (t : nat) (prog : list (list item))
+                          (* task t clones its Sender for a new task running prog *)
+| CancelSend (t k : nat)  (* task t drops the k-th outstanding send future of its stage
+                             (select!-style cancellation), keeping its Sender *)
 | CloseRx                 (* Receiver::close *)
 | DropRx.                 (* drop the Receiver *)
 
@@ -69,6 +74,7 @@ Inductive obs :=
 | OPoll (rs : list sres) (fin : bool) (ws : list wake)
 | ORecv (r : rres) (ws : list wake)
 | OAct (ws : list wake)
+| OTry (r : sres) (ws : list wake)
 | ODisabled.
 
 Definition finished (tk : task) : bool :=
@@ -80,6 +86,8 @@ Definition advance (tk : task) : task :=
   | [], st :: r => mkTask st r (alive tk) (woken tk)
   | _, _ => tk
   end.
+
+Definition init_task (p : list (list item)) : task := advance (mkTask [] p true true).
 
 Definition upd (f : nat -> task) (t : nat) (x : task) : nat -> task :=
   fun i => if Nat.eqb i t then x else f i.
@@ -129,6 +137,8 @@ Fixpoint poll_sends (c : option nat) (r : rxst) (t : nat) (xs : list item) (ch :
       let '(rem, os, ws, ch2) := poll_sends c r t xs' ch1 in
       ((if pend then x :: rem else rem), o1 :: os, w1 ++ ws, ch2)
   end.
+
+Definition remove_nth {A} (k : nat) (l : list A) : list A := firstn k l ++ skipn (S k) l.
 
 Definition rx_alive (s : state) : bool := negb (rxst_eqb (rx s) RxDropped).
 
@@ -189,6 +199,35 @@ Definition step (p : policy) (s : state) (l : label) : option (state * obs) :=
                 (upd (tasks s) t (mkTask [] [] false (woken tk))) (sent s) (recvd s),
               OAct (if fire then [WRecv] else []))
       else None
+  | TrySend t x =>
+      let tk := tasks s t in
+      if Nat.ltb t (ntasks s) && alive tk && ((woken tk && negb (finished tk)) || spurious p) then
+        match rx s with
+        | RxOpen =>
+            if full (cap s) (buf s) then Some (s, OTry SFull [])
+            else Some (mkState (buf s ++ [x]) (cap s) (sw s) false (rx s) (rx_woken s || rw s)
+                         (rx_done s) (ntasks s) (tasks s) (sent s ++ [x]) (recvd s),
+                       OTry SSent (if rw s then [WRecv] else []))
+        | _ => Some (s, OTry SClosed [])
+        end
+      else None
+  | CloneSender t prog =>
+      let tk := tasks s t in
+      if Nat.ltb t (ntasks s) && alive tk then
+        (* Weak::clone: one more sender handle, owned by a new runnable task *)
+        Some (mkState (buf s) (cap s) (sw s) (rw s) (rx s) (rx_woken s) (rx_done s) (S (ntasks s))
+                (upd (tasks s) (ntasks s) (init_task prog)) (sent s) (recvd s), OAct [])
+      else None
+  | CancelSend t k =>
+      let tk := tasks s t in
+      if cancel p && Nat.ltb t (ntasks s) && alive tk && Nat.ltb k (length (cur tk)) then
+        (* the future is dropped (its registered waker, if any, stays in send_wakers); the task
+           is running: it goes on with the rest of its stage / its next stage *)
+        let tk1 := advance (mkTask (remove_nth k (cur tk)) (rest tk) true true) in
+        Some (mkState (buf s) (cap s) (sw s) (rw s) (rx s) (rx_woken s) (rx_done s) (ntasks s)
+                (upd (tasks s) t (mkTask (cur tk1) (rest tk1) true (negb (finished tk1))))
+                (sent s) (recvd s), OAct [])
+      else None
   | CloseRx =>
       match rx s with
       | RxOpen =>
@@ -211,7 +250,6 @@ Definition step (p : policy) (s : state) (l : label) : option (state * obs) :=
   end.
 
 (* initial state: every task is runnable, the stage futures exist but are not polled yet *)
-Definition init_task (p : list (list item)) : task := advance (mkTask [] p true true).
 
 Definition init (c : option nat) (progs : list (list (list item))) : state :=
   mkState [] c [] false RxOpen true false (length progs)
@@ -271,6 +309,10 @@ Definition rx_stranded_b (s : state) : bool :=
 
 Definition is_close_sender (l : label) : bool :=
   match l with CloseSender _ => true | _ => false end.
+
+(* the labels of the original alphabet (the counting invariant of PMpscLive.v is about them) *)
+Definition basic (l : label) : bool :=
+  match l with TrySend _ _ | CloneSender _ _ | CancelSend _ _ => false | _ => true end.
 
 (* the class of programs for which NoStrand is proved: one outstanding send per task *)
 Definition single_prog (p : list (list item)) : bool :=
